@@ -1,8 +1,428 @@
-import Quanto.Spec.C06
+/-
+C14 — configuration validation: `quantize_weight`, `quantize_activation`, the two quantizers'
+own sanity ladders and the automatic group size of quantized modules either accept a
+configuration and honour it, or reject it with `ValueError` — nothing else.  Helper lemmas live in `Proofs/C14/Lemmas.lean`.
+-/
+import Proofs.C14.Lemmas
 namespace Quanto
+open C14
 
-/-- placeholder until the configuration proofs land -/
-theorem C14_autogroup_small (n : Nat) (h : n ≤ 128) : autoGroup n = none := by
-  unfold autoGroup; simp; omega
+/-! ### T1 — `quantize_weight`: accept-and-honour or `ValueError` -/
+
+theorem C14_weight_total (shape : List Nat) (q : QType) (axis : Option Int) (gs : Option Nat)
+    (opt : OptFamily) :
+    validateWeight shape q axis gs opt = .error .valueError ∨
+    ∃ c, validateWeight shape q axis gs opt = .ok c ∧ c.qtype = q ∧ c.groupSize = gs ∧
+      (∀ g, gs = some g → ∃ s, groupShape shape (axis == some 0) g = some s) := by
+  unfold validateWeight
+  cases axis with
+  | none => exact .inl rfl
+  | some a =>
+    simp only []
+    by_cases ha : a ≠ 0 ∧ a ≠ -1
+    · simp [ha]
+    · rw [if_neg ha]
+      have hax : (some a == some (0 : Int)) = decide (a = 0) := by
+        by_cases h0 : a = 0 <;> simp [h0]
+      by_cases h8 : q.bits = 8
+      · rw [if_pos h8]
+        by_cases ho : opt = .affine
+        · simp [ho]
+        · rw [if_neg ho]
+          cases gs with
+          | some g => simp
+          | none =>
+            simp only [Option.isSome_none, Bool.false_eq_true, if_false]
+            by_cases hd : dimAt shape a = 1
+            · rw [if_pos hd]; exact .inr ⟨_, rfl, rfl, rfl, by simp⟩
+            · rw [if_neg hd]
+              by_cases h1 : shape.length = 1
+              · simp [h1]
+              · rw [if_neg h1]; exact .inr ⟨_, rfl, rfl, rfl, by simp⟩
+      · rw [if_neg h8]
+        by_cases ho : opt = .symmetric
+        · simp [ho]
+        · rw [if_neg ho]
+          cases gs with
+          | none => exact .inr ⟨_, rfl, rfl, rfl, by simp⟩
+          | some g =>
+            simp only []
+            rw [hax]
+            cases hg : groupShape shape (decide (a = 0)) g with
+            | none => exact .inl rfl
+            | some s =>
+              refine .inr ⟨_, rfl, rfl, rfl, ?_⟩
+              intro g' hg'
+              cases hg'
+              exact ⟨s, hg⟩
+
+/-! ### T2 — what is rejected -/
+
+theorem C14_weight_rejects_axis (shape : List Nat) (q : QType) (axis : Option Int)
+    (gs : Option Nat) (opt : OptFamily) (h0 : axis ≠ some 0) (h1 : axis ≠ some (-1)) :
+    validateWeight shape q axis gs opt = .error .valueError := by
+  cases axis with
+  | none => rfl
+  | some a =>
+    have : a ≠ 0 ∧ a ≠ -1 := ⟨fun h => h0 (by rw [h]), fun h => h1 (by rw [h])⟩
+    rw [validateWeight_some, if_pos this]
+
+theorem C14_weight_rejects_group_8bit (shape : List Nat) (q : QType) (axis : Option Int)
+    (gs : Option Nat) (opt : OptFamily) (h8 : q.bits = 8) (hg : gs.isSome) :
+    validateWeight shape q axis gs opt = .error .valueError := by
+  cases axis with
+  | none => rfl
+  | some a =>
+    rw [validateWeight_some, if_pos h8, if_pos hg]
+    split
+    · rfl
+    · split <;> rfl
+
+theorem C14_weight_rejects_affine_opt_8bit (shape : List Nat) (q : QType) (axis : Option Int)
+    (gs : Option Nat) (h8 : q.bits = 8) :
+    validateWeight shape q axis gs .affine = .error .valueError := by
+  cases axis with
+  | none => rfl
+  | some a =>
+    rw [validateWeight_some, if_pos h8, if_pos rfl]
+    split <;> rfl
+
+theorem C14_weight_rejects_symmetric_opt_lowbit (shape : List Nat) (q : QType)
+    (axis : Option Int) (gs : Option Nat) (h8 : q.bits ≠ 8) :
+    validateWeight shape q axis gs .symmetric = .error .valueError := by
+  cases axis with
+  | none => rfl
+  | some a =>
+    rw [validateWeight_some, if_neg h8, if_pos rfl]
+    split <;> rfl
+
+theorem C14_weight_rejects_bad_group (shape : List Nat) (q : QType) (axis : Option Int)
+    (g : Nat) (opt : OptFamily) (h8 : q.bits ≠ 8) (hax : axis = some 0 ∨ axis = some (-1))
+    (hg : groupShape shape (axis == some 0) g = none) :
+    validateWeight shape q axis (some g) opt = .error .valueError := by
+  have key : ∀ a : Int, groupShape shape (decide (a = 0)) g = none →
+      validateWeight shape q (some a) (some g) opt = .error .valueError := by
+    intro a hg'
+    rw [validateWeight_some, if_neg h8]
+    simp only [hg']
+    split
+    · rfl
+    · split <;> rfl
+  rcases hax with rfl | rfl
+  · exact key 0 (by simpa using hg)
+  · exact key (-1) (by simpa using hg)
+
+theorem C14_group_rejects_non_divisor (shape : List Nat) (af : Bool) (g : Nat) :
+    groupShape shape af g = none ↔
+      ((if af then shape.headD 0 else shape.getLastD 0) = 0 ∨ g = 0 ∨
+        g > prod shape / (if af then shape.headD 0 else shape.getLastD 0) ∨
+        (prod shape / (if af then shape.headD 0 else shape.getLastD 0)) % g ≠ 0) := by
+  unfold groupShape
+  simp only []
+  generalize (if af = true then shape.headD 0 else shape.getLastD 0) = D
+  by_cases hd : D = 0
+  · rw [if_pos hd]; exact ⟨fun _ => .inl hd, fun _ => rfl⟩
+  · rw [if_neg hd]
+    by_cases hg : g = 0
+    · rw [if_pos hg]; exact ⟨fun _ => .inr (.inl hg), fun _ => rfl⟩
+    · rw [if_neg hg]
+      by_cases hx : g > prod shape / D ∨ (prod shape / D) % g ≠ 0
+      · rw [if_pos hx]
+        refine ⟨fun _ => ?_, fun _ => rfl⟩
+        rcases hx with hx | hx
+        · exact .inr (.inr (.inl hx))
+        · exact .inr (.inr (.inr hx))
+      · rw [if_neg hx]
+        constructor
+        · intro h; cases af <;> simp at h
+        · rintro (h | h | h | h)
+          · exact absurd h hd
+          · exact absurd h hg
+          · exact absurd (.inl h) hx
+          · exact absurd (.inr h) hx
+
+/-! ### T3 — the requested axis is honoured -/
+
+theorem C14_weight_axis_honoured (shape : List Nat) (q : QType) (a : Int) (gs : Option Nat)
+    (opt : OptFamily) (c : WeightCfg)
+    (h : validateWeight shape q (some a) gs opt = .ok c) :
+    c.axis = some (decide (a = 0)) ∨ (q.bits = 8 ∧ dimAt shape a = 1 ∧ c.axis = none) := by
+  unfold validateWeight at h
+  simp only [] at h
+  split at h
+  · cases h
+  · split at h
+    · rename_i h8
+      split at h
+      · cases h
+      · split at h
+        · cases h
+        · split at h
+          · rename_i hd
+            cases h
+            exact .inr ⟨h8, hd, rfl⟩
+          · split at h
+            · cases h
+            · cases h; exact .inl rfl
+    · split at h
+      · cases h
+      · split at h
+        · cases h; exact .inl rfl
+        · split at h
+          · cases h
+          · cases h; exact .inl rfl
+
+/-! ### T4 — activations take a scalar scale only -/
+
+theorem C14_activation_scalar_only (sshape : List Nat) :
+    validateActivation sshape = .ok () ↔ sshape = [] := by
+  unfold validateActivation
+  constructor
+  · intro h
+    split at h
+    · cases h
+    · split at h
+      · cases h
+      · rename_i hl
+        exact List.eq_nil_of_length_eq_zero (by omega)
+  · rintro rfl
+    simp [prod]
+
+theorem C14_activation_total (sshape : List Nat) :
+    validateActivation sshape = .ok () ∨ validateActivation sshape = .error .valueError := by
+  unfold validateActivation
+  split
+  · exact .inr rfl
+  · split
+    · exact .inr rfl
+    · exact .inl rfl
+
+/-! ### T5 — `SymmetricQuantizer.forward` -/
+
+theorem C14_symmetric_total (shape : List Nat) (axis : Option Int) (sshape : List Nat) :
+    symValidate shape axis sshape = .error .valueError ∨
+    ∃ ax, symValidate shape axis sshape = .ok ax := by
+  unfold symValidate
+  cases axis with
+  | none =>
+    simp only []
+    split
+    · exact .inl rfl
+    · exact .inr ⟨_, rfl⟩
+  | some a =>
+    simp only []
+    repeat' split
+    all_goals first | exact .inl rfl | exact .inr ⟨_, rfl⟩
+
+theorem C14_symmetric_per_tensor (shape : List Nat) (sshape : List Nat) (ax : Axis)
+    (h : symValidate shape none sshape = .ok ax) : ax = none ∧ sshape = [] := by
+  unfold symValidate at h
+  simp only [] at h
+  split at h
+  · cases h
+  · rename_i hl
+    cases h
+    exact ⟨rfl, List.eq_nil_of_length_eq_zero (by omega)⟩
+
+theorem C14_symmetric_per_axis_scale_shape (shape : List Nat) (a : Int) (sshape : List Nat)
+    (ax : Axis) (h : symValidate shape (some a) sshape = .ok ax) :
+    ∃ af, ax = some af ∧ 2 ≤ shape.length ∧
+      (scaleShapeFor shape (some af)).contains sshape = true := by
+  unfold symValidate at h
+  simp only [] at h
+  generalize (if a = (shape.length : Int) - 1 then (-1 : Int) else a) = a' at h
+  by_cases hlen1 : shape.length = 1
+  · rw [if_pos hlen1] at h; cases h
+  rw [if_neg hlen1] at h
+  by_cases ha' : a' ≠ 0 ∧ a' ≠ -1
+  · rw [if_pos ha'] at h; cases h
+  rw [if_neg ha'] at h
+  by_cases hdim : (if a' = 0 then shape.headD 0 else shape.getLastD 0) = 1
+  · rw [if_pos hdim] at h; cases h
+  rw [if_neg hdim] at h
+  by_cases hrank : squeezedRank sshape > 1
+  · rw [if_pos hrank] at h; cases h
+  rw [if_neg hrank] at h
+  by_cases hlen : sshape.length ≠ shape.length
+  · rw [if_pos hlen] at h; cases h
+  rw [if_neg hlen] at h
+  by_cases hsd : (if a' = 0 then sshape.headD 0 else sshape.getLastD 0) ≠
+      (if a' = 0 then shape.headD 0 else shape.getLastD 0) ∨
+      prod sshape ≠ (if a' = 0 then shape.headD 0 else shape.getLastD 0)
+  · rw [if_pos hsd] at h; cases h
+  rw [if_neg hsd] at h
+  cases h
+  have hlen : sshape.length = shape.length := by omega
+  have hrank : squeezedRank sshape ≤ 1 := by omega
+  have hsd' := not_or.mp hsd
+  have hsdim := Classical.not_not.mp hsd'.1
+  have hprod := Classical.not_not.mp hsd'.2
+  -- the empty shape is excluded by the product check
+  have hlen2 : 2 ≤ shape.length := by
+    cases shape with
+    | nil =>
+      have : sshape = [] := List.eq_nil_of_length_eq_zero (by simpa using hlen)
+      subst this
+      simp [prod] at hprod
+    | cons x xs =>
+      cases xs with
+      | nil => simp at hlen1
+      | cons y ys => simp
+  refine ⟨_, rfl, hlen2, ?_⟩
+  by_cases ha : a' = 0
+  · simp only [ha, if_true] at hsdim hdim
+    have := keepdim_head sshape _ hdim hsdim hrank (by omega)
+    simp only [ha, decide_true, scaleShapeFor, List.contains_cons, List.contains_nil,
+      Bool.or_false, beq_iff_eq]
+    rw [← hlen]; exact this
+  · simp only [ha, if_false] at hsdim hdim
+    have := keepdim_last sshape _ hdim hsdim hrank (by omega)
+    simp only [ha, decide_false, scaleShapeFor, List.contains_cons, List.contains_nil,
+      Bool.or_false, beq_iff_eq]
+    rw [← hlen]; exact this
+
+/-! ### T6 — `AffineQuantizer.forward` -/
+
+theorem C14_affine_total (shape : List Nat) (q : QType) (axis : Option Int) (gs : Option Nat) :
+    validateAffine shape q axis gs = .ok () ∨
+    validateAffine shape q axis gs = .error .valueError := by
+  unfold validateAffine
+  repeat' split
+  all_goals first | exact .inl rfl | exact .inr rfl
+
+theorem C14_affine_rejects_8bit (shape : List Nat) (q : QType) (axis : Option Int)
+    (gs : Option Nat) (h8 : q.bits = 8) :
+    validateAffine shape q axis gs = .error .valueError := by
+  unfold validateAffine
+  have : q ≠ .qint2 ∧ q ≠ .qint4 := by
+    constructor <;> (intro h; subst h; simp [QType.bits] at h8)
+  rw [if_pos this]
+
+/-! ### T7 — automatic group size -/
+
+theorem C14_autogroup_some (n g : Nat) (h : autoGroup n = some g) :
+    g ∣ n ∧ g ∈ [128, 96, 64, 32] ∧ 128 < n := by
+  rw [autoGroup_eq] at h
+  simp only [List.mem_cons, List.not_mem_nil, or_false]
+  by_cases hn : n > 128
+  · rw [if_pos hn] at h
+    by_cases h1 : n % 128 = 0
+    · rw [if_pos h1] at h; cases h
+      exact ⟨Nat.dvd_of_mod_eq_zero h1, .inl rfl, hn⟩
+    rw [if_neg h1] at h
+    by_cases h2 : n % 96 = 0
+    · rw [if_pos h2] at h; cases h
+      exact ⟨Nat.dvd_of_mod_eq_zero h2, .inr (.inl rfl), hn⟩
+    rw [if_neg h2] at h
+    by_cases h3 : n % 64 = 0
+    · rw [if_pos h3] at h; cases h
+      exact ⟨Nat.dvd_of_mod_eq_zero h3, .inr (.inr (.inl rfl)), hn⟩
+    rw [if_neg h3] at h
+    by_cases h4 : n % 32 = 0
+    · rw [if_pos h4] at h; cases h
+      exact ⟨Nat.dvd_of_mod_eq_zero h4, .inr (.inr (.inr rfl)), hn⟩
+    rw [if_neg h4] at h; cases h
+  · rw [if_neg hn] at h; cases h
+
+theorem C14_autogroup_none (n : Nat) :
+    autoGroup n = none ↔
+      (n ≤ 128 ∨ (n % 128 ≠ 0 ∧ n % 96 ≠ 0 ∧ n % 64 ≠ 0 ∧ n % 32 ≠ 0)) := by
+  rw [autoGroup_eq]
+  by_cases hn : n > 128
+  · by_cases h1 : n % 128 = 0 <;> by_cases h2 : n % 96 = 0 <;> by_cases h3 : n % 64 = 0 <;>
+      by_cases h4 : n % 32 = 0 <;> simp [hn, h1, h2, h3, h4] <;> omega
+  · simp [hn]; omega
+
+/-- no automatic group for at most 128 input features -/
+theorem C14_autogroup_small (n : Nat) (h : n ≤ 128) : autoGroup n = none :=
+  (C14_autogroup_none n).mpr (.inl h)
+
+theorem C14_autogroup_maximal (n g : Nat) (h : autoGroup n = some g) :
+    ∀ g' ∈ [128, 96, 64, 32], g' ∣ n → g' ≤ g := by
+  rw [autoGroup_eq] at h
+  intro g' hg' hdvd
+  simp only [List.mem_cons, List.not_mem_nil, or_false] at hg'
+  by_cases hn : n > 128
+  · rw [if_pos hn] at h
+    by_cases h1 : n % 128 = 0
+    · rw [if_pos h1] at h; cases h
+      rcases hg' with rfl | rfl | rfl | rfl <;> omega
+    rw [if_neg h1] at h
+    by_cases h2 : n % 96 = 0
+    · rw [if_pos h2] at h; cases h
+      rcases hg' with rfl | rfl | rfl | rfl <;> omega
+    rw [if_neg h2] at h
+    by_cases h3 : n % 64 = 0
+    · rw [if_pos h3] at h; cases h
+      rcases hg' with rfl | rfl | rfl | rfl <;> omega
+    rw [if_neg h3] at h
+    by_cases h4 : n % 32 = 0
+    · rw [if_pos h4] at h; cases h
+      rcases hg' with rfl | rfl | rfl | rfl <;> omega
+    rw [if_neg h4] at h; cases h
+  · rw [if_neg hn] at h; cases h
+
+theorem C14_autogroup_groupable (n g out : Nat) (h : autoGroup n = some g) (ho : 1 ≤ out) :
+    ∃ s, groupShape [out, n] true g = some s := by
+  obtain ⟨hdvd, hmem, hn⟩ := C14_autogroup_some n g h
+  simp only [List.mem_cons, List.not_mem_nil, or_false] at hmem
+  have hq : prod [out, n] / out = n := by
+    simp only [prod, Nat.mul_one]
+    exact Nat.mul_div_cancel_left n (by omega)
+  have hmod : n % g = 0 := Nat.mod_eq_zero_of_dvd hdvd
+  unfold groupShape
+  simp only [if_true, List.headD_cons, hq]
+  rw [if_neg (by omega), if_neg (by omega), if_neg (by omega)]
+  exact ⟨_, rfl⟩
+
+theorem C14_autogroup_groupable_conv (c kh kw g out : Nat)
+    (h : autoGroup (c * kh * kw) = some g) (ho : 1 ≤ out) :
+    ∃ s, groupShape [out, c, kh, kw] true g = some s := by
+  obtain ⟨hdvd, hmem, hn⟩ := C14_autogroup_some _ g h
+  simp only [List.mem_cons, List.not_mem_nil, or_false] at hmem
+  have hq : prod [out, c, kh, kw] / out = c * kh * kw := by
+    simp only [prod, Nat.mul_one]
+    rw [Nat.mul_div_cancel_left _ (by omega : 0 < out), Nat.mul_assoc]
+  have hmod : (c * kh * kw) % g = 0 := Nat.mod_eq_zero_of_dvd hdvd
+  unfold groupShape
+  simp only [if_true, List.headD_cons, hq]
+  generalize c * kh * kw = m at *
+  rw [if_neg (by omega), if_neg (by omega), if_neg (by omega)]
+  exact ⟨_, rfl⟩
+
+/-! ### non-vacuity -/
+
+attribute [local instance] exceptDecEq
+
+example : validateWeight [4, 256] .qint4 (some 0) (some 128) .default
+    = .ok ⟨.qint4, some true, some 128⟩ := by decide
+example : validateWeight [4, 256] .qint8 (some 0) none .default = .ok ⟨.qint8, some true, none⟩ := by
+  decide
+example : validateWeight [1, 256] .qint8 (some 0) none .default = .ok ⟨.qint8, none, none⟩ := by
+  decide
+example : validateWeight [4, 256] .qint4 (some 1) (some 128) .default = .error .valueError := by
+  decide
+example : validateWeight [4, 256] .qint4 none none .default = .error .valueError := by decide
+example : validateWeight [4, 256] .qint4 (some 0) (some 100) .default = .error .valueError := by
+  decide
+example : validateWeight [4, 256] .qint8 (some 0) (some 128) .default = .error .valueError := by
+  decide
+example : validateWeight [4, 256] .qint8 (some 0) none .affine = .error .valueError := by decide
+example : validateWeight [4, 256] .qint4 (some 0) none .symmetric = .error .valueError := by decide
+example : validateActivation [] = .ok () := by decide
+example : validateActivation [1] = .error .valueError := by decide
+example : symValidate [4, 256] (some 0) [4, 1] = .ok (some true) := by decide
+example : symValidate [4, 256] (some (-1)) [1, 256] = .ok (some false) := by decide
+example : symValidate [4, 256] (some 1) [1, 256] = .ok (some false) := by decide
+example : symValidate [4, 256] (some 0) [1, 4] = .error .valueError := by decide
+example : symValidate [4, 256] none [] = .ok none := by decide
+example : validateAffine [4, 256] .qint4 (some 0) (some 128) = .ok () := by decide
+example : validateAffine [4, 256] .qint8 (some 0) none = .error .valueError := by decide
+example : autoGroup 384 = some 128 := by decide
+example : autoGroup 160 = some 32 := by decide
+example : autoGroup 200 = none := by decide
+example : autoGroup 96 = none := by decide
+example : ∃ s, groupShape [8, 384] true 128 = some s :=
+  C14_autogroup_groupable 384 128 8 (by decide) (by decide)
 
 end Quanto
